@@ -625,10 +625,9 @@ pub fn c15(tier: &str) -> ! {
     let mutations: Vec<Mutation> = {
         let mut m: Vec<Mutation> = (0..8).map(Mutation::FlipBit).collect();
         m.push(Mutation::Zero);
-        if t {
-            m.push(Mutation::Ones);
-            m.push(Mutation::Inc);
-        }
+        m.push(Mutation::Ones);
+        m.push(Mutation::Inc);
+        let _ = t;
         m
     };
     let mut cases: Vec<Case> = vec![];
